@@ -27,6 +27,8 @@ Hypothesis Hfpos : forall e, P e -> P (FPos e).
 Hypothesis Hfnamed : forall n e, P e -> P (FNamed n e).
 Hypothesis Hfkey : forall k e, P k -> P e -> P (FKey k e).
 Hypothesis Htableml : forall fs, Forall P fs -> P (ETableML fs).
+Hypothesis Hfline : forall b f t, P f -> P (FLine b f t).
+Hypothesis Hfcom : forall b x, P (FCom b x).
 Fixpoint exp_ind' (e : exp) : P e :=
   let all := fix all (l : list exp) : Forall P l := match l with [] => Forall_nil P | x :: r => Forall_cons x (exp_ind' x) (all r) end in
   match e with
@@ -44,6 +46,8 @@ Fixpoint exp_ind' (e : exp) : P e :=
   | FNamed n x => Hfnamed n x (exp_ind' x)
   | FKey k x => Hfkey k x (exp_ind' k) (exp_ind' x)
   | ETableML fs => Htableml fs (all fs)
+  | FLine b f t => Hfline b f t (exp_ind' f)
+  | FCom b x => Hfcom b x
   end.
 End ExpInd.
 
@@ -117,21 +121,53 @@ Qed.
 Lemma erase_pargs_congr b b' xs xs' : obs xs = obs xs' -> obs (pargs c0 b xs) = obs (pargs c0 b' xs').
 Proof. intros H. rewrite !erase_pargs. exact H. Qed.
 (* the lines of a table written over several lines *)
-Definition tlines (d : nat) (xs : list exp) : list tok := List.concat (map (fun f => indent c0 (S d) ++ pexp (S d) f ++ [kw ","; eol c0]) xs).
+Definition tline (d : nat) (x : exp) : list tok :=
+  match x with
+  | FCom b t => (if b then [eol c0] else []) ++ indent c0 (S d) ++ [TLineCom t; eol c0]
+  | FLine b f t => (if b then [eol c0] else []) ++ indent c0 (S d) ++ pexp (S d) f ++ kw "," :: (match t with Some t1 => [sp; TLineCom t1] | None => [] end) ++ [eol c0]
+  | f => indent c0 (S d) ++ pexp (S d) f ++ [kw ","; eol c0]
+  end.
+Definition tlines (d : nat) (xs : list exp) : list tok := List.concat (map (tline d) xs).
 Lemma p_tableml d f fs : pexp d (ETableML (f :: fs)) = kw "{" :: eol c0 :: tlines d (f :: fs) ++ indent c0 d ++ [kw "}"].
 Proof. reflexivity. Qed.
-Lemma erase_tlines_congr d (g : exp -> exp) fs :
+Definition isline (x : exp) : bool := match x with FLine _ _ _ | FCom _ _ => true | _ => false end.
+Lemma tline_plain d x : isline x = false -> tline d x = indent c0 (S d) ++ pexp (S d) x ++ [kw ","; eol c0].
+Proof. destruct x; try discriminate; reflexivity. Qed.
+(* a pass [g] that keeps the two line forms in place and maps anything else to something else *)
+Definition keeps_lines (g : exp -> exp) : Prop :=
+  (forall b t, g (FCom b t) = FCom b t) /\ (forall b f t, exists f', g (FLine b f t) = FLine b f' t)
+  /\ (forall x, isline x = false -> isline (g x) = false).
+Lemma erase_tline_congr d (g : exp -> exp) x : keeps_lines g -> (forall d, obs (pexp d (g x)) = obs (pexp d x)) -> obs (tline d (g x)) = obs (tline d x).
+Proof.
+  intros (K1 & K2 & K3) Hx. destruct (isline x) eqn:L.
+  - destruct x; try discriminate.
+    + (* a field line: outside a table the line prints as its field, so the hypothesis speaks about the fields *)
+      destruct (K2 b x t) as (f' & E). pose proof (Hx (S d)) as Hf. rewrite E in Hf |- *. cbn [pexp] in Hf. cbn [tline].
+      apply obs_app_congr; [reflexivity|]. apply obs_app_congr; [reflexivity|]. apply obs_app_congr; [exact Hf|reflexivity].
+    + rewrite K1. reflexivity.
+  - rewrite (tline_plain d x L), (tline_plain d (g x) (K3 x L)). apply obs_app_congr; [reflexivity|]. apply obs_app_congr; [apply Hx|reflexivity].
+Qed.
+Lemma erase_tlines_congr d (g : exp -> exp) fs : keeps_lines g ->
   Forall (fun x => forall d, obs (pexp d (g x)) = obs (pexp d x)) fs -> obs (tlines d (map g fs)) = obs (tlines d fs).
 Proof.
-  unfold tlines. induction 1 as [|x r Hx Hr IH]; [reflexivity|]. cbn [map List.concat].
-  apply obs_app_congr; [|exact IH]. apply obs_app_congr; [reflexivity|]. apply obs_app_congr; [apply Hx|reflexivity].
+  intros K. unfold tlines. induction 1 as [|x r Hx Hr IH]; [reflexivity|]. cbn [map List.concat].
+  apply obs_app_congr; [|exact IH]. apply erase_tline_congr; assumption.
 Qed.
-Lemma erase_tableml d (g : exp -> exp) fs :
+Lemma erase_tableml d (g : exp -> exp) fs : keeps_lines g ->
   Forall (fun x => forall d, obs (pexp d (g x)) = obs (pexp d x)) fs -> obs (pexp d (ETableML (map g fs))) = obs (pexp d (ETableML fs)).
 Proof.
-  intros H. destruct fs as [|f fs]; [reflexivity|]. change (map g (f :: fs)) with (g f :: map g fs). rewrite !p_tableml.
-  change (g f :: map g fs) with (map g (f :: fs)). apply erase_cons. apply erase_cons. apply obs_app_congr; [apply erase_tlines_congr; exact H|reflexivity].
+  intros K H. destruct fs as [|f fs]; [reflexivity|]. change (map g (f :: fs)) with (g f :: map g fs). rewrite !p_tableml.
+  change (g f :: map g fs) with (map g (f :: fs)). apply erase_cons. apply erase_cons. apply obs_app_congr; [apply erase_tlines_congr; assumption|reflexivity].
 Qed.
+Lemma isline_nexp : forall e c, isline e = false -> isline (nexp c e) = false.
+Proof.
+  induction e; intros c L; try discriminate; try reflexivity.
+  cbn [nexp]. destruct (droppable c (shape e)) eqn:D; [|reflexivity]. apply IHe. destruct e; try reflexivity; discriminate.
+Qed.
+Lemma keeps_lines_nexp c : keeps_lines (nexp c).
+Proof. split; [reflexivity|]. split; [intros b f t; eexists; reflexivity|]. intros x L. apply isline_nexp. exact L. Qed.
+Lemma keeps_lines_cexp m o : keeps_lines (cexp m o).
+Proof. split; [reflexivity|]. split; [intros b f t; eexists; reflexivity|]. intros x L. destruct x; try discriminate; reflexivity. Qed.
 Lemma erase_pexp_nexp : forall e c d, obs (pexp d (nexp c e)) = obs (pexp d e).
 Proof.
   induction e using exp_ind'; intros c d; cbn [nexp]; try reflexivity.
@@ -155,7 +191,8 @@ Proof.
   - (* FPos *) cbn [pexp]. apply IHe.
   - (* FNamed *) cbn [pexp]. congr. apply IHe.
   - (* FKey *) cbn [pexp]. congr; [apply IHe1|apply IHe2].
-  - (* ETableML *) apply erase_tableml. eapply Forall_impl; [|exact H]. intros a Ha d0. apply Ha.
+  - (* ETableML *) apply erase_tableml; [apply keeps_lines_nexp|]. eapply Forall_impl; [|exact H]. intros a Ha d0. apply Ha.
+  - (* FLine *) cbn [pexp]. apply IHe.
 Qed.
 (* the call-form pass: a single argument gains or loses its parentheses, nothing else *)
 Lemma erase_pexp_cexp m : forall e o d, obs (pexp d (cexp m o e)) = obs (pexp d e).
@@ -179,7 +216,8 @@ Proof.
   - cbn [pexp]. apply IHe.
   - cbn [pexp]. congr. apply IHe.
   - cbn [pexp]. congr; [apply IHe1|apply IHe2].
-  - apply erase_tableml. eapply Forall_impl; [|exact H]. intros a Ha d0. apply Ha.
+  - apply erase_tableml; [apply keeps_lines_cexp|]. eapply Forall_impl; [|exact H]. intros a Ha d0. apply Ha.
+  - cbn [pexp]. apply IHe.
 Qed.
 End ObsExp.
 
@@ -187,7 +225,7 @@ End ObsExp.
 Definition fbody (c : cfg0) (d : nat) (b : blk) : list tok :=
   if blk_empty b then [sp; kw "end"]
   else match fun_guard c b with
-       | Some s1 => if oneline (psimple c d s1) then sp :: psimple c d s1 ++ [sp; kw "end"] else eol c :: pblk c (S d) b ++ indent c d ++ [kw "end"]
+       | Some s1 => if oneline (psimple c d s1) && nocom (psimple c d s1) then sp :: psimple c d s1 ++ [sp; kw "end"] else eol c :: pblk c (S d) b ++ indent c d ++ [kw "end"]
        | None => eol c :: pblk c (S d) b ++ indent c d ++ [kw "end"]
        end.
 Section Unfold.
@@ -199,7 +237,8 @@ Lemma p_while e b : pstmt c d (SWhile e b) = kw "while" :: sp :: pexp d e ++ sp 
 Lemma p_repeat b e : pstmt c d (SRepeat b e) = kw "repeat" :: eol c :: pblk c (S d) b ++ indent c d ++ kw "until" :: sp :: pexp d e. Proof. reflexivity. Qed.
 Lemma p_if e t r : pstmt c d (SIf e t r) =
   match if_guard c t r with
-  | Some s1 => kw "if" :: sp :: pexp d e ++ sp :: kw "then" :: sp :: psimple c d s1 ++ [sp; kw "end"]
+  | Some s1 => if nocom (psimple c d s1) then kw "if" :: sp :: pexp d e ++ sp :: kw "then" :: sp :: psimple c d s1 ++ [sp; kw "end"]
+               else kw "if" :: sp :: pexp d e ++ sp :: kw "then" :: eol c :: pblk c (S d) t ++ pels c d r ++ indent c d ++ [kw "end"]
   | None => kw "if" :: sp :: pexp d e ++ sp :: kw "then" :: eol c :: pblk c (S d) t ++ pels c d r ++ indent c d ++ [kw "end"]
   end. Proof. reflexivity. Qed.
 Lemma p_numfor v a b st body : pstmt c d (SNumFor v a b st body) =
@@ -311,11 +350,12 @@ Qed.
    hypothesis is discharged, where the section is instantiated, by this very development applied to the observation
    "the line breaks of a token list") *)
 Hypothesis Hone_n : forall d s, oneline (psimple c d (nstmt s)) = oneline (psimple c d s).
+Hypothesis Hcom_n : forall d s, nocom (psimple c d (nstmt s)) = nocom (psimple c d s).
 Lemma erase_fbody b : Be b -> forall d, obs (fbody c d (nblk b)) = obs (fbody c d b).
 Proof.
   intros H d. unfold fbody. rewrite blk_empty_nblk, fun_guard_nblk. destruct (blk_empty b); [reflexivity|].
   destruct (fun_guard c b) as [s1|]; cbn [option_map].
-  - rewrite Hone_n. destruct (oneline (psimple c d s1)).
+  - rewrite Hone_n, Hcom_n. destruct (oneline (psimple c d s1) && nocom (psimple c d s1)).
     + congr. apply erase_psimple.
     + apply erase_cons. apply obs_app_congr; [apply H|reflexivity].
   - apply erase_cons. apply obs_app_congr; [apply H|reflexivity].
@@ -338,7 +378,9 @@ Proof.
     + (* SWhile *) cbn [nstmt]. rewrite !p_while. congr; [apply erase_ncond|apply H].
     + (* SRepeat *) cbn [nstmt]. rewrite !p_repeat. congr; [apply H|apply erase_ncond].
     + (* SIf *) cbn [nstmt]. rewrite !p_if, if_guard_nblk. destruct (if_guard c t r) as [s1|]; cbn [option_map].
-      * congr; [apply erase_ncond|apply erase_psimple].
+      * rewrite Hcom_n. destruct (nocom (psimple c d s1)).
+        -- congr; [apply erase_ncond|apply erase_psimple].
+        -- congr; [apply erase_ncond|apply H|apply H0].
       * congr; [apply erase_ncond|apply H|apply H0].
     + (* SNumFor *) cbn [nstmt]. rewrite !p_numfor. congr; try apply erase_pexp_nexp; [|apply H].
       destruct st as [x|]; cbn [option_map]; congr. apply erase_pexp_nexp.
@@ -402,11 +444,12 @@ Proof.
     change (fe e :: map fe es') with (map fe (e :: es')). apply smap_pexps.
 Qed.
 Hypothesis Hone_fe : forall d s, oneline (psimple c d (smap_s fe s)) = oneline (psimple c d s).
+Hypothesis Hcom_fe : forall d s, nocom (psimple c d (smap_s fe s)) = nocom (psimple c d s).
 Lemma smap_fbody b : Be' b -> forall d, obs (fbody c d (smap_b fe b)) = obs (fbody c d b).
 Proof.
   intros H d. unfold fbody. rewrite blk_empty_smap, fun_guard_smap. destruct (blk_empty b); [reflexivity|].
   destruct (fun_guard c b) as [s1|]; cbn [option_map].
-  - rewrite Hone_fe. destruct (oneline (psimple c d s1)).
+  - rewrite Hone_fe, Hcom_fe. destruct (oneline (psimple c d s1) && nocom (psimple c d s1)).
     + congr. apply smap_psimple.
     + apply erase_cons. apply obs_app_congr; [apply H|reflexivity].
   - apply erase_cons. apply obs_app_congr; [apply H|reflexivity].
@@ -428,7 +471,9 @@ Proof.
     + (* SWhile *) cbn [smap_s]. rewrite !p_while. congr; [apply Hfe|apply H].
     + (* SRepeat *) cbn [smap_s]. rewrite !p_repeat. congr; [apply H|apply Hfe].
     + (* SIf *) cbn [smap_s]. rewrite !p_if, if_guard_smap. destruct (if_guard c t r) as [s1|]; cbn [option_map].
-      * congr; [apply Hfe|apply smap_psimple].
+      * rewrite Hcom_fe. destruct (nocom (psimple c d s1)).
+        -- congr; [apply Hfe|apply smap_psimple].
+        -- congr; [apply Hfe|apply H|apply H0].
       * congr; [apply Hfe|apply H|apply H0].
     + (* SNumFor *) cbn [smap_s]. rewrite !p_numfor. congr; try apply Hfe; [|apply H].
       destruct st as [x|]; cbn [option_map]; congr. apply Hfe.
@@ -453,8 +498,9 @@ Transparent pblk.
 Theorem nprog_keeps_obs p : obs (pprog c (nprog p)) = obs (pprog c p).
 Proof. unfold pprog, nprog. apply (proj2 erase_prog_all). Qed.
 Hypothesis Hone_c : forall m d s, oneline (psimple c d (smap_s (cexp m false) s)) = oneline (psimple c d s).
+Hypothesis Hcom_c : forall m d s, nocom (psimple c d (smap_s (cexp m false) s)) = nocom (psimple c d s).
 Theorem cprog_keeps_obs m p : obs (pprog c (cprog m p)) = obs (pprog c p).
-Proof. unfold pprog, cprog. apply (proj2 (smap_obs_all (cexp m false) (fun d e => erase_pexp_cexp c m e false d) (Hone_c m))). Qed.
+Proof. unfold pprog, cprog. apply (proj2 (smap_obs_all (cexp m false) (fun d e => erase_pexp_cexp c m e false d) (Hone_c m) (Hcom_c m))). Qed.
 (* both passes together: what format0 prints *)
 Theorem format0_keeps_obs p : obs (pprog c (norm0 c p)) = obs (pprog c p).
 Proof. unfold norm0. rewrite cprog_keeps_obs. apply nprog_keeps_obs. Qed.
@@ -488,12 +534,28 @@ Proof.
   intros d0 e. apply (erase_pexp_cexp lb); lb_hyps.
 Qed.
 
+(* and the comments of a token list, for the other side condition *)
+Definition iscom (t : tok) : bool := match t with TLineCom _ | TBlockCom _ _ => true | _ => false end.
+Definition cm (ts : list tok) : list tok := filter iscom ts.
+Lemma nocom_cm ts : nocom ts = match cm ts with [] => true | _ => false end.
+Proof. induction ts as [|t r IH]; [reflexivity|]. unfold nocom, cm in *. cbn [forallb filter]. destruct t; cbn [iscom andb]; try exact IH; reflexivity. Qed.
+Lemma cm_cons_inst t r r' : cm r = cm r' -> cm (t :: r) = cm (t :: r').
+Proof. intros H. unfold cm in *. cbn [filter]. rewrite H. reflexivity. Qed.
+Ltac cm_hyps := first [ reflexivity | apply filter_app | apply cm_cons_inst | (intros; apply filter_app) | (intros; apply cm_cons_inst; assumption) | (intros; reflexivity) ].
+Lemma nocom_psimple_nstmt c d s : nocom (psimple c d (nstmt s)) = nocom (psimple c d s).
+Proof. rewrite !nocom_cm. erewrite (erase_psimple cm); [reflexivity|..]; cm_hyps. Qed.
+Lemma nocom_psimple_cexp c m d s : nocom (psimple c d (smap_s (cexp m false) s)) = nocom (psimple c d s).
+Proof.
+  rewrite !nocom_cm. erewrite (smap_psimple cm); [reflexivity|..]; try cm_hyps.
+  intros d0 e. apply (erase_pexp_cexp cm); cm_hyps.
+Qed.
+
 (* the two instances the properties use *)
 Lemma erase_cons_inst dl t r r' : erase dl r = erase dl r' -> erase dl (t :: r) = erase dl (t :: r').
 Proof. intros H. destruct t; cbn [erase]; rewrite H; reflexivity. Qed.
 Theorem format0_keeps_erasure dl c p : erase dl (pprog c (norm0 c p)) = erase dl (pprog c p).
 Proof.
-  apply (format0_keeps_obs (erase dl)); [reflexivity|apply erase_app|apply erase_cons_inst|reflexivity|reflexivity|reflexivity|reflexivity|apply oneline_psimple_nstmt|apply oneline_psimple_cexp].
+  apply (format0_keeps_obs (erase dl)); [reflexivity|apply erase_app|apply erase_cons_inst|reflexivity|reflexivity|reflexivity|reflexivity|apply oneline_psimple_nstmt|apply nocom_psimple_nstmt|apply oneline_psimple_cexp|apply nocom_psimple_cexp].
 Qed.
 Lemma census_cons_inst t r r' : census r = census r' -> census (t :: r) = census (t :: r').
 Proof. intros H. cbn [census]. rewrite H. reflexivity. Qed.
@@ -502,17 +564,46 @@ Proof. induction a as [|t a IH]; [reflexivity|]. cbn [app census]. rewrite IH. d
 (* C03 on L0: normalisation leaves every comment where it is *)
 Theorem format0_keeps_comments c p : census (pprog c (norm0 c p)) = census (pprog c p).
 Proof.
-  apply (format0_keeps_obs census); [reflexivity|apply census_app|apply census_cons_inst|reflexivity|reflexivity|reflexivity|reflexivity|apply oneline_psimple_nstmt|apply oneline_psimple_cexp].
+  apply (format0_keeps_obs census); [reflexivity|apply census_app|apply census_cons_inst|reflexivity|reflexivity|reflexivity|reflexivity|apply oneline_psimple_nstmt|apply nocom_psimple_nstmt|apply oneline_psimple_cexp|apply nocom_psimple_cexp].
 Qed.
 
 (* ---------- C03 on whole programs: the comments of the output are the comments of the program, each once, in order ---------- *)
+(* the comments inside an expression: those of the lines of its tables written over several lines, in order *)
+Fixpoint coms_x (e : exp) : list bytes :=
+  match e with
+  | EField p _ => coms_x p
+  | EIndex p k => coms_x p ++ coms_x k
+  | ECall f _ args => coms_x f ++ List.concat (map coms_x args)
+  | EMethod o _ _ args => coms_x o ++ List.concat (map coms_x args)
+  | EUn _ x | EParen x | FPos x | FNamed _ x | FLine _ x _ => coms_x x
+  | EBin _ l r | FKey l r => coms_x l ++ coms_x r
+  | ETable fs => List.concat (map coms_x fs)
+  | ETableML fs => List.concat (map (fun x => match x with
+                                              | FCom _ t => [t]
+                                              | FLine _ f t => coms_x f ++ match t with Some t1 => [t1] | None => [] end
+                                              | f => coms_x f
+                                              end) fs)
+  | _ => []
+  end.
+Definition cline (x : exp) : list bytes :=
+  match x with FCom _ t => [t] | FLine _ f t => coms_x f ++ match t with Some t1 => [t1] | None => [] end | f => coms_x f end.
+Lemma coms_x_ml fs : coms_x (ETableML fs) = List.concat (map cline fs). Proof. reflexivity. Qed.
+Definition coms_xs (es : list exp) : list bytes := List.concat (map coms_x es).
+Definition coms_o (o : option exp) : list bytes := match o with Some x => coms_x x | None => [] end.
 Fixpoint coms_s (s : stmt) : list bytes :=
   match s with
-  | SDo b | SWhile _ b | SRepeat b _ | SNumFor _ _ _ _ b | SGenFor _ _ b | SFunction _ _ _ _ b | SLocalFunction _ _ _ b => coms_b b
-  | SIf _ t r => coms_b t ++ coms_e r
-  | _ => []
+  | SLocal _ es | SReturn es => coms_xs es
+  | SAssign vs es => coms_xs vs ++ coms_xs es
+  | SCall e => coms_x e
+  | SDo b | SFunction _ _ _ _ b | SLocalFunction _ _ _ b => coms_b b
+  | SWhile e b => coms_x e ++ coms_b b
+  | SRepeat b e => coms_b b ++ coms_x e
+  | SIf e t r => coms_x e ++ coms_b t ++ coms_e r
+  | SNumFor _ a b st body => coms_x a ++ coms_x b ++ coms_o st ++ coms_b body
+  | SGenFor _ es b => coms_xs es ++ coms_b b
+  | SBreak => []
   end
-with coms_e (r : els) : list bytes := match r with NoElse => [] | Else b => coms_b b | ElseIf _ t r2 => coms_b t ++ coms_e r2 end
+with coms_e (r : els) : list bytes := match r with NoElse => [] | Else b => coms_b b | ElseIf e t r2 => coms_x e ++ coms_b t ++ coms_e r2 end
 with coms_i (i : item) : list bytes := match i with Item l _ s t => map snd l ++ coms_s s ++ match t with Some x => [x] | None => [] end end
 with coms_b (b : blk) : list bytes := match b with Blk is tl => List.concat (map coms_i is) ++ map snd tl end.
 Section CensusProg.
@@ -526,45 +617,60 @@ Lemma census_ident n r : census (TIdent n :: r) = census r. Proof. reflexivity. 
 Lemma census_com x r : census (TLineCom x :: r) = LineC (trim_end x) :: census r. Proof. reflexivity. Qed.
 Lemma census_eol r : census (eol c :: r) = census r. Proof. reflexivity. Qed.
 Lemma census_indent d r : census (indent c d ++ r) = census r. Proof. destruct d; reflexivity. Qed.
-Lemma census_commas l : Forall (fun x => census x = []) l -> census (commas l) = [].
+Lemma lc_app a b : lc (a ++ b) = lc a ++ lc b. Proof. apply map_app. Qed.
+Lemma lc_concat l : lc (List.concat l) = List.concat (map lc l). Proof. unfold lc. apply concat_map. Qed.
+Lemma census_commas l : census (commas l) = List.concat (map census l).
 Proof.
-  induction 1 as [|x r Hx Hr IH]; [reflexivity|]. destruct r as [|y r']; [cbn [commas]; exact Hx|].
-  change (commas (x :: y :: r')) with (x ++ kw "," :: sp :: commas (y :: r')). rewrite census_app, Hx, census_kw, census_sp. exact IH.
+  induction l as [|x r IH]; [reflexivity|]. destruct r as [|y r']; [cbn [commas map List.concat]; rewrite app_nil_r; reflexivity|].
+  change (commas (x :: y :: r')) with (x ++ kw "," :: sp :: commas (y :: r')). rewrite census_app, census_kw, census_sp, IH. reflexivity.
+Qed.
+Lemma census_map_pexp d l : Forall (fun e => forall d, census (pexp d e) = lc (coms_x e)) l -> List.concat (map census (map (pexp d) l)) = lc (coms_xs l).
+Proof.
+  unfold coms_xs. intros H. rewrite lc_concat, !map_map. f_equal. induction H as [|x r Hx Hr IH]; [reflexivity|]. cbn [map]. rewrite Hx, IH. reflexivity.
 Qed.
 Lemma census_pargs b xs : census (pargs c b xs) = census xs.
 Proof.
   unfold pargs, gap_call, gap_sugar. destruct b; [reflexivity|]. destruct (CallForm.space_call (space0 c)); cbn [app]; rewrite ?census_sp, census_kw, census_app; cbn [census norm_com]; apply app_nil_r.
 Qed.
-Lemma census_pexp : forall e d, census (pexp d e) = [].
+Lemma census_pexp : forall e d, census (pexp d e) = lc (coms_x e).
 Proof.
-  induction e using exp_ind'; intros d; cbn [Fmt0.pexp]; try reflexivity.
-  - rewrite census_app, IHe. reflexivity.
-  - rewrite census_app, IHe1, census_kw, census_app, IHe2. reflexivity.
-  - rewrite census_app, IHe, census_pargs, census_commas; [reflexivity|apply Forall_map; eapply Forall_impl; [|exact H]; intros a0 Ha0; apply Ha0].
-  - rewrite census_app, IHe, census_kw, census_ident, census_pargs, census_commas; [reflexivity|apply Forall_map; eapply Forall_impl; [|exact H]; intros a0 Ha0; apply Ha0].
+  induction e using exp_ind'; intros d; cbn [Fmt0.pexp coms_x]; try reflexivity.
+  - rewrite census_app, IHe. cbn [census norm_com]. apply app_nil_r.
+  - rewrite census_app, IHe1, census_kw, census_app, IHe2, lc_app. cbn [census norm_com]. rewrite app_nil_r. reflexivity.
+  - rewrite census_app, IHe, census_pargs, census_commas, (census_map_pexp d args H), lc_app. reflexivity.
+  - rewrite census_app, IHe, census_kw, census_ident, census_pargs, census_commas, (census_map_pexp d args H), lc_app. reflexivity.
   - rewrite census_app, IHe. destruct u; reflexivity.
-  - rewrite census_app, IHe1, census_sp, census_kw, census_sp. apply IHe2.
-  - rewrite census_kw, census_app, IHe. reflexivity.
-  - destruct fs as [|f fs]; [reflexivity|]. rewrite census_kw, census_sp, census_app, census_commas; [reflexivity|apply Forall_map; eapply Forall_impl; [|exact H]; intros a0 Ha0; apply Ha0].
+  - rewrite census_app, IHe1, census_sp, census_kw, census_sp, IHe2, lc_app. reflexivity.
+  - rewrite census_kw, census_app, IHe. cbn [census norm_com]. apply app_nil_r.
+  - destruct fs as [|f fs]; [reflexivity|]. rewrite census_kw, census_sp, census_app, census_commas, (census_map_pexp d (f :: fs) H). cbn [census norm_com]. apply app_nil_r.
   - apply IHe.
   - rewrite census_ident, census_sp, census_kw, census_sp. apply IHe.
-  - rewrite census_kw, census_app, IHe1, census_kw, census_sp, census_kw, census_sp. apply IHe2.
-  - destruct fs as [|f fs]; [reflexivity|]. rewrite census_kw, census_eol, census_app.
-    assert (E : census (List.concat (map (fun f0 => indent c (S d) ++ pexp (S d) f0 ++ [kw ","; eol c]) (f :: fs))) = []).
-    { induction H as [|x r Hx Hr IH]; [reflexivity|]. cbn [map List.concat]. rewrite census_app, census_indent, census_app, Hx, IH. reflexivity. }
-    rewrite E, census_indent. reflexivity.
+  - rewrite census_kw, census_app, IHe1, census_kw, census_sp, census_kw, census_sp, IHe2, lc_app. reflexivity.
+  - (* a table over several lines: line by line *)
+    destruct fs as [|f fs]; [reflexivity|].
+    match goal with |- census ?X = lc ?Y => change X with (kw "{" :: eol c :: tlines c d (f :: fs) ++ indent c d ++ [kw "}"]); change Y with (List.concat (map cline (f :: fs))) end.
+    rewrite census_kw, census_eol, census_app, census_indent. cbn [census norm_com]. rewrite app_nil_r.
+    unfold tlines. rewrite lc_concat, map_map. induction H as [|x r Hx Hr IH]; [reflexivity|]. cbn [map List.concat]. rewrite census_app, IH. f_equal.
+    assert (E : forall (bl : bool) k, census ((if bl then [eol c] else []) ++ k) = census k) by (intros bl k; destruct bl; reflexivity).
+    destruct x; try (cbn [tline cline]; rewrite census_indent, census_app, Hx; cbn [census norm_com]; apply app_nil_r).
+    + (* a field line *) cbn [tline cline]. rewrite E, census_indent, census_app. pose proof (Hx (S d)) as Hf. cbn [Fmt0.pexp coms_x] in Hf. rewrite Hf, census_kw, lc_app.
+      destruct t; cbn [app]; [rewrite census_sp, census_com|]; reflexivity.
+    + (* a comment line *) cbn [tline cline]. rewrite E, census_indent. reflexivity.
+  - apply IHe.
 Qed.
-Lemma census_pexps d es : census (pexps d es) = [].
-Proof. apply census_commas. apply Forall_map. apply Forall_forall. intros x _. apply census_pexp. Qed.
+Lemma census_pexps d es : census (pexps d es) = lc (coms_xs es).
+Proof. unfold Fmt0.pexps. rewrite census_commas. apply census_map_pexp. apply Forall_forall. intros x _. apply census_pexp. Qed.
 Lemma census_pnames ns : census (pnames ns) = [].
-Proof. apply census_commas. apply Forall_map. apply Forall_forall. intros x _. reflexivity. Qed.
+Proof. unfold pnames. rewrite census_commas, map_map. induction ns; [reflexivity|exact IHns]. Qed.
 Lemma census_dotted p : census (dotted p) = [].
 Proof. induction p as [|n r IH]; [reflexivity|]. destruct r; [reflexivity|]. exact IH. Qed.
 Lemma census_pparams ps va : census (pparams c ps va) = [].
 Proof.
   unfold pparams. rewrite census_app. assert (E : census (if CallForm.space_definition (space0 c) then [sp] else []) = []) by (destruct (CallForm.space_definition (space0 c)); reflexivity).
-  rewrite E. cbn [app]. rewrite census_kw, census_app, census_commas; [reflexivity|].
-  apply Forall_app. split; [apply Forall_map; apply Forall_forall; intros x _; reflexivity|]. destruct va; repeat constructor.
+  rewrite E. cbn [app]. rewrite census_kw, census_app, census_commas.
+  assert (Z : List.concat (map census (map (fun n : bytes => [TIdent n]) ps ++ (if va then [[kw "..."]] else []))) = []).
+  { rewrite map_app, concat_app. destruct va; (induction ps as [|n r IH]; [reflexivity|exact IH]). }
+  rewrite Z. reflexivity.
 Qed.
 Lemma census_ptrivia d tv : census (ptrivia c d tv) = lc (map snd tv).
 Proof.
@@ -572,40 +678,39 @@ Proof.
   assert (E : forall k, census ((if b then [eol c] else []) ++ k) = census k) by (intros k; destruct b; reflexivity).
   rewrite E, census_indent. cbn [app]. rewrite census_com, census_eol, IH. reflexivity.
 Qed.
-Lemma lc_app a b : lc (a ++ b) = lc a ++ lc b. Proof. apply map_app. Qed.
 Definition Pc (s : stmt) : Prop := forall d, census (pstmt c d s) = lc (coms_s s).
 Definition Qc (r : els) : Prop := forall d, census (pels c d r) = lc (coms_e r).
 Definition Ic (i : item) : Prop := forall d, census (pitem c d i) = lc (coms_i i).
 Definition Bc (b : blk) : Prop := forall d, census (pblk c d b) = lc (coms_b b).
-Lemma census_psimple d s : census (psimple c d s) = [].
+Lemma census_psimple d s : census (psimple c d s) = lc (match s with SLocal _ _ | SAssign _ _ | SCall _ | SReturn _ | SBreak => coms_s s | _ => [] end).
 Proof.
-  destruct s; try reflexivity; cbn [psimple].
+  destruct s; try reflexivity; cbn [psimple coms_s].
   - destruct es; rewrite census_kw, census_sp; [apply census_pnames|]. rewrite census_app, census_pnames, census_sp, census_kw, census_sp. apply census_pexps.
-  - rewrite census_app, census_pexps, census_sp, census_kw, census_sp. apply census_pexps.
+  - rewrite census_app, census_pexps, census_sp, census_kw, census_sp, census_pexps, lc_app. reflexivity.
   - apply census_pexp.
   - destruct es; [reflexivity|]. rewrite census_kw, census_sp. apply census_pexps.
 Qed.
-(* a block that can be collapsed holds no comment *)
-Lemma simple_blk_coms b s1 : simple_blk b = Some s1 -> coms_b b = [].
+(* a block that can be collapsed: its comments are those of its statement *)
+Lemma simple_blk_coms b s1 : simple_blk b = Some s1 -> coms_b b = coms_s s1 /\ simple_stmt s1 = true.
 Proof.
   destruct b as [is tl]. destruct is as [|[l bl s t] [|i2 r]]; try discriminate; cbn [simple_blk].
-  - destruct l; [|discriminate]. destruct t; [discriminate|]. destruct tl; [|discriminate]. destruct (simple_stmt s) eqn:S; [|discriminate]. intros _.
-    cbn [coms_b map List.concat coms_i app]. destruct s; try discriminate; reflexivity.
+  - destruct l; [|discriminate]. destruct t; [discriminate|]. destruct tl; [|discriminate]. destruct (simple_stmt s) eqn:S; [|discriminate]. intros E. injection E as <-.
+    split; [|exact S]. cbn [coms_b map List.concat coms_i app]. rewrite !app_nil_r. reflexivity.
   - destruct l; [|discriminate]. destruct t; discriminate.
 Qed.
-Lemma if_guard_coms t r s1 : if_guard c t r = Some s1 -> coms_b t = [] /\ r = NoElse.
-Proof. unfold if_guard. destruct (collapse_if (collapse0 c)); [|discriminate]. destruct r; try discriminate. intros H. split; [apply (simple_blk_coms t s1 H)|reflexivity]. Qed.
-Lemma fun_guard_coms b s1 : fun_guard c b = Some s1 -> coms_b b = [].
-Proof. unfold fun_guard. destruct (collapse_fun (collapse0 c)); [apply simple_blk_coms|discriminate]. Qed.
+Lemma census_psimple_simple d s : simple_stmt s = true -> census (psimple c d s) = lc (coms_s s).
+Proof. intros S. rewrite census_psimple. destruct s; try discriminate; reflexivity. Qed.
+Lemma census_collapsed d s1 r : simple_stmt s1 = true -> census (sp :: psimple c d s1 ++ sp :: kw "end" :: r) = lc (coms_s s1) ++ census r.
+Proof. intros S. rewrite census_sp, census_app, (census_psimple_simple d s1 S), census_sp, census_kw. reflexivity. Qed.
 Lemma census_fbody b d : Bc b -> census (fbody c d b) = lc (coms_b b).
 Proof.
   intros H. unfold fbody. destruct (blk_empty b) eqn:E.
   - destruct b as [is tl]. destruct is; [destruct tl|]; try discriminate. reflexivity.
-  - destruct (fun_guard c b) as [s1|] eqn:G.
-    + destruct (oneline (psimple c d s1)).
-      * rewrite (fun_guard_coms b s1 G), census_sp, census_app, census_psimple. reflexivity.
-      * rewrite census_eol, census_app, H, census_indent. cbn [census norm_com]. rewrite app_nil_r. reflexivity.
-    + rewrite census_eol, census_app, H, census_indent. cbn [census norm_com]. rewrite app_nil_r. reflexivity.
+  - assert (N : census (eol c :: pblk c (S d) b ++ indent c d ++ [kw "end"]) = lc (coms_b b)).
+    { rewrite census_eol, census_app, H, census_indent. cbn [census norm_com]. rewrite app_nil_r. reflexivity. }
+    destruct (fun_guard c b) as [s1|] eqn:G; [|exact N]. destruct (oneline (psimple c d s1) && nocom (psimple c d s1)); [|exact N].
+    unfold fun_guard in G. destruct (collapse_fun (collapse0 c)); [|discriminate]. destruct (simple_blk_coms b s1 G) as [Cb S].
+    rewrite Cb. rewrite (census_collapsed d s1 [] S). cbn [census]. apply app_nil_r.
 Qed.
 Opaque pblk.
 Lemma census_all : (forall s, Pc s) /\ (forall b, Bc b).
@@ -616,34 +721,36 @@ Proof.
   { intros l bl s t H d. rewrite p_item, census_app, census_ptrivia.
     assert (E : forall k, census ((if bl then [eol c] else []) ++ k) = census k) by (intros k; destruct bl; reflexivity).
     rewrite E, census_indent, census_app, H. cbn [coms_i]. rewrite !lc_app. f_equal. f_equal. destruct t; reflexivity. }
+  assert (Hend : forall b d, Bc b -> census (pblk c (S d) b ++ indent c d ++ [kw "end"]) = lc (coms_b b)).
+  { intros b d H. rewrite census_app, H, census_indent. cbn [census norm_com]. apply app_nil_r. }
   assert (H : forall s, Pc s); [|split; [exact H|]].
   - apply (stmt_ind' Pc Qc Ic Bc); unfold Pc, Qc, Bc; intros; try (apply Hitem; assumption).
-    + destruct es; cbn [pstmt psimple]; rewrite census_kw, census_sp; [apply census_pnames|].
-      rewrite census_app, census_pnames, census_sp, census_kw, census_sp. apply census_pexps.
-    + cbn [pstmt psimple]. rewrite census_app, census_pexps, census_sp, census_kw, census_sp. apply census_pexps.
-    + cbn [pstmt psimple]. apply census_pexp.
-    + rewrite p_do, census_kw, census_eol, census_app, H, census_indent. cbn [census norm_com coms_s]. rewrite app_nil_r. reflexivity.
-    + rewrite p_while, census_kw, census_sp, census_app, census_pexp, census_sp, census_kw, census_eol, census_app, H, census_indent. cbn [census norm_com coms_s]. rewrite app_nil_r. reflexivity.
-    + rewrite p_repeat, census_kw, census_eol, census_app, H, census_indent, census_kw, census_sp, census_pexp. cbn [coms_s]. rewrite app_nil_r. reflexivity.
-    + rewrite p_if. destruct (if_guard c t r) as [s1|] eqn:G.
-      * destruct (if_guard_coms t r s1 G) as [Ct ->]. cbn [coms_s coms_e]. rewrite Ct.
-        rewrite census_kw, census_sp, census_app, census_pexp, census_sp, census_kw, census_sp, census_app, census_psimple. reflexivity.
-      * rewrite census_kw, census_sp, census_app, census_pexp, census_sp, census_kw, census_eol, census_app, H, census_app, H0, census_indent.
-        cbn [census norm_com coms_s]. rewrite app_nil_r, lc_app. reflexivity.
+    + change (pstmt c d (SLocal ns es)) with (psimple c d (SLocal ns es)). rewrite census_psimple. reflexivity.
+    + change (pstmt c d (SAssign vs es)) with (psimple c d (SAssign vs es)). rewrite census_psimple. reflexivity.
+    + change (pstmt c d (SCall e)) with (psimple c d (SCall e)). rewrite census_psimple. reflexivity.
+    + rewrite p_do, census_kw, census_eol. apply Hend. exact H.
+    + rewrite p_while, census_kw, census_sp, census_app, census_pexp, census_sp, census_kw, census_eol, (Hend b d H). cbn [coms_s]. rewrite lc_app. reflexivity.
+    + rewrite p_repeat, census_kw, census_eol, census_app, H, census_indent, census_kw, census_sp, census_pexp. cbn [coms_s]. rewrite lc_app. reflexivity.
+    + rewrite p_if. cbn [coms_s]. rewrite !lc_app.
+      assert (N : census (kw "if" :: sp :: pexp d e ++ sp :: kw "then" :: eol c :: pblk c (S d) t ++ pels c d r ++ indent c d ++ [kw "end"]) = lc (coms_x e) ++ lc (coms_b t) ++ lc (coms_e r)).
+      { rewrite census_kw, census_sp, census_app, census_pexp, census_sp, census_kw, census_eol, census_app, H, census_app, H0, census_indent. cbn [census norm_com]. rewrite app_nil_r. reflexivity. }
+      destruct (if_guard c t r) as [s1|] eqn:G; [|exact N]. destruct (nocom (psimple c d s1)); [|exact N].
+      unfold if_guard in G. destruct (collapse_if (collapse0 c)); [|discriminate]. destruct r; try discriminate. destruct (simple_blk_coms t s1 G) as [Ct S].
+      rewrite census_kw, census_sp, census_app, census_pexp, census_sp, census_kw, (census_collapsed d s1 [] S), Ct. cbn [census coms_e lc map]. rewrite !app_nil_r. reflexivity.
     + rewrite p_numfor, census_kw, census_sp, census_ident, census_sp, census_kw, census_sp, census_app, census_pexp, census_kw, census_sp, census_app, census_pexp, census_app.
-      assert (E : census (match st with Some x => kw "," :: sp :: pexp d x | None => [] end) = []) by (destruct st; [rewrite census_kw, census_sp; apply census_pexp|reflexivity]).
-      rewrite E, census_sp, census_kw, census_eol, census_app, H, census_indent. cbn [census norm_com coms_s]. rewrite app_nil_r. reflexivity.
-    + rewrite p_genfor, census_kw, census_sp, census_app, census_pnames, census_sp, census_kw, census_sp, census_app, census_pexps, census_sp, census_kw, census_eol, census_app, H, census_indent.
-      cbn [census norm_com coms_s]. rewrite app_nil_r. reflexivity.
+      assert (E : census (match st with Some x => kw "," :: sp :: pexp d x | None => [] end) = lc (coms_o st)) by (destruct st; [rewrite census_kw, census_sp; apply census_pexp|reflexivity]).
+      rewrite E, census_sp, census_kw, census_eol, (Hend body d H). cbn [coms_s]. rewrite !lc_app. reflexivity.
+    + rewrite p_genfor, census_kw, census_sp, census_app, census_pnames, census_sp, census_kw, census_sp, census_app, census_pexps, census_sp, census_kw, census_eol, (Hend body d H).
+      cbn [coms_s app]. rewrite lc_app. reflexivity.
     + rewrite p_function, census_kw, census_sp, census_app, census_dotted, census_app.
       assert (E : census (match m with Some n => [kw ":"; TIdent n] | None => [] end) = []) by (destruct m; reflexivity).
       rewrite E, census_app, census_pparams. cbn [app coms_s]. apply census_fbody. exact H.
     + rewrite p_localfunction, census_kw, census_sp, census_kw, census_sp, census_ident, census_app, census_pparams. cbn [app coms_s]. apply census_fbody. exact H.
-    + destruct es; cbn [pstmt psimple]; [reflexivity|]. rewrite census_kw, census_sp. apply census_pexps.
+    + change (pstmt c d (SReturn es)) with (psimple c d (SReturn es)). rewrite census_psimple. reflexivity.
     + reflexivity.
     + reflexivity.
     + rewrite p_else, census_indent, census_kw, census_eol. apply H.
-    + rewrite p_elseif, census_indent, census_kw, census_sp, census_app, census_pexp, census_sp, census_kw, census_eol, census_app, H, H0. cbn [coms_e]. rewrite lc_app. reflexivity.
+    + rewrite p_elseif, census_indent, census_kw, census_sp, census_app, census_pexp, census_sp, census_kw, census_eol, census_app, H, H0. cbn [coms_e]. rewrite !lc_app. reflexivity.
     + rewrite p_blk, census_app, (HB is H), census_ptrivia. cbn [coms_b]. rewrite lc_app. reflexivity.
   - intros b. destruct b as [is tl]. unfold Bc. intros d. rewrite p_blk, census_app, census_ptrivia. cbn [coms_b]. rewrite lc_app. f_equal.
     apply HB. apply Forall_forall. intros i _. destruct i as [l bl s t]. apply Hitem. apply H.
@@ -653,6 +760,121 @@ Theorem format0_comments_exact p : census (pprog c (norm0 c p)) = lc (coms_b p).
 Proof. rewrite format0_keeps_comments. unfold pprog. apply (proj2 census_all). Qed.
 End CensusProg.
 
+(* the rule on whole programs: a predicate on every expression of a program, with "nothing follows" at the roots *)
+Section SAll.
+Variable P : exp -> bool.
+Definition pall (l : list exp) : bool := forallb P l.
+Fixpoint sall_s (s : stmt) : bool :=
+  match s with
+  | SLocal _ es | SReturn es => pall es
+  | SAssign vs es => pall vs && pall es
+  | SCall e => P e
+  | SDo b => sall_b b
+  | SWhile e b | SRepeat b e => P e && sall_b b
+  | SIf e t r => P e && sall_b t && sall_r r
+  | SNumFor _ a b st body => P a && P b && match st with Some x => P x | None => true end && sall_b body
+  | SGenFor _ es body => pall es && sall_b body
+  | SFunction _ _ _ _ body | SLocalFunction _ _ _ body => sall_b body
+  | SBreak => true
+  end
+with sall_r (r : els) : bool := match r with NoElse => true | Else b => sall_b b | ElseIf e t r2 => P e && sall_b t && sall_r r2 end
+with sall_i (i : item) : bool := match i with Item _ _ s _ => sall_s s end
+with sall_b (b : blk) : bool := match b with Blk is _ => forallb sall_i is end.
+Variable fe : exp -> exp.
+Hypothesis Hfe : forall e, P (fe e) = true.
+Lemma pall_map es : pall (map fe es) = true.
+Proof. unfold pall. apply forallb_forall. intros x Hx. apply in_map_iff in Hx. destruct Hx as (y & <- & _). apply Hfe. Qed.
+Theorem sall_smap : (forall s, sall_s (smap_s fe s) = true) /\ (forall b, sall_b (smap_b fe b) = true).
+Proof.
+  assert (HI : forall is, Forall (fun i => sall_i (smap_i fe i) = true) is -> forallb sall_i (map (smap_i fe) is) = true).
+  { induction 1 as [|i r Hi Hr IH]; [reflexivity|]. cbn [map forallb]. rewrite Hi, IH. reflexivity. }
+  assert (H : forall s, sall_s (smap_s fe s) = true).
+  - apply (stmt_ind' (fun s => sall_s (smap_s fe s) = true) (fun r => sall_r (smap_r fe r) = true) (fun i => sall_i (smap_i fe i) = true) (fun b => sall_b (smap_b fe b) = true));
+      intros; try (cbn [smap_b sall_b]; apply HI; assumption); cbn [smap_s smap_r smap_i sall_s sall_r sall_i]; rewrite ?pall_map, ?Hfe;
+      try (match goal with |- context [option_map fe ?st] => destruct st; cbn [option_map]; rewrite ?Hfe end);
+      repeat (apply andb_true_iff; split); try reflexivity; try assumption; try apply Hfe; try apply pall_map.
+  - split; [exact H|]. intros [is tl]. cbn [smap_b sall_b]. apply HI. apply Forall_forall. intros [l bl s t] _. cbn [smap_i sall_i]. apply H.
+Qed.
+End SAll.
+(* ... and a pass that does not change the predicate on expressions does not change it on programs *)
+Section SAllEq.
+Variable P : exp -> bool.
+Section Map.
+Variable fe : exp -> exp.
+Hypothesis Hfe : forall e, P (fe e) = P e.
+Lemma pall_map_eq es : pall P (map fe es) = pall P es.
+Proof. unfold pall. induction es as [|x r IH]; [reflexivity|]. cbn [map forallb]. rewrite Hfe, IH. reflexivity. Qed.
+Theorem sall_smap_eq : (forall s, sall_s P (smap_s fe s) = sall_s P s) /\ (forall b, sall_b P (smap_b fe b) = sall_b P b).
+Proof.
+  assert (HI : forall is, Forall (fun i => sall_i P (smap_i fe i) = sall_i P i) is -> forallb (sall_i P) (map (smap_i fe) is) = forallb (sall_i P) is).
+  { induction 1 as [|i r Hi Hr IH]; [reflexivity|]. cbn [map forallb]. rewrite Hi, IH. reflexivity. }
+  assert (H : forall s, sall_s P (smap_s fe s) = sall_s P s).
+  - apply (stmt_ind' (fun s => sall_s P (smap_s fe s) = sall_s P s) (fun r => sall_r P (smap_r fe r) = sall_r P r) (fun i => sall_i P (smap_i fe i) = sall_i P i) (fun b => sall_b P (smap_b fe b) = sall_b P b));
+      intros; try (cbn [smap_b sall_b]; apply HI; assumption); cbn [smap_s smap_r smap_i sall_s sall_r sall_i];
+      try (match goal with |- context [option_map fe ?st] => destruct st; cbn [option_map] end);
+      repeat first [ reflexivity | assumption | apply Hfe | apply pall_map_eq | apply (f_equal2 andb) ].
+  - split; [exact H|]. intros [is tl]. cbn [smap_b sall_b]. apply HI. apply Forall_forall. intros [l bl s t] _. cbn [smap_i sall_i]. apply H.
+Qed.
+End Map.
+Hypothesis Hn : forall c e, P (nexp c e) = P e.
+Hypothesis Hp : forall e, P (EParen e) = P e.
+Lemma P_ncond e : P (ncond e) = P e.
+Proof. destruct e; try apply Hn. unfold ncond. rewrite Hn, Hp. reflexivity. Qed.
+Lemma pall_nexps es : pall P (nexps es) = pall P es.
+Proof. unfold pall, nexps. induction es as [|x r IH]; [reflexivity|]. cbn [map forallb]. rewrite Hn, IH. reflexivity. Qed.
+Theorem sall_nblk_eq : (forall s, sall_s P (nstmt s) = sall_s P s) /\ (forall b, sall_b P (nblk b) = sall_b P b).
+Proof.
+  assert (HI : forall is, Forall (fun i => sall_i P (nitem i) = sall_i P i) is -> forallb (sall_i P) (map nitem is) = forallb (sall_i P) is).
+  { induction 1 as [|i r Hi Hr IH]; [reflexivity|]. cbn [map forallb]. rewrite Hi, IH. reflexivity. }
+  assert (H : forall s, sall_s P (nstmt s) = sall_s P s).
+  - apply (stmt_ind' (fun s => sall_s P (nstmt s) = sall_s P s) (fun r => sall_r P (nels r) = sall_r P r) (fun i => sall_i P (nitem i) = sall_i P i) (fun b => sall_b P (nblk b) = sall_b P b));
+      intros; try (cbn [nblk sall_b]; apply HI; assumption); cbn [nstmt nels nitem sall_s sall_r sall_i];
+      try (match goal with |- context [option_map (nexp Std) ?st] => destruct st; cbn [option_map] end);
+      repeat first [ reflexivity | assumption | apply Hn | apply P_ncond | apply pall_nexps | apply (f_equal2 andb) ].
+  - split; [exact H|]. intros [is tl]. cbn [nblk sall_b]. apply HI. apply Forall_forall. intros [l bl s t] _. cbn [nitem sall_i]. apply H.
+Qed.
+End SAllEq.
+(* no comment inside the expression holds a carriage return *)
+Fixpoint crf (e : exp) : bool :=
+  match e with
+  | EField p _ => crf p
+  | EIndex p k => crf p && crf k
+  | ECall f _ args => crf f && forallb crf args
+  | EMethod o _ _ args => crf o && forallb crf args
+  | EUn _ x | EParen x | FPos x | FNamed _ x => crf x
+  | EBin _ l r | FKey l r => crf l && crf r
+  | ETable fs | ETableML fs => forallb crf fs
+  | FLine _ f t => crf f && match t with Some x => negb (has_cr x) | None => true end
+  | FCom _ x => negb (has_cr x)
+  | _ => true
+  end.
+Lemma crf_map (g : exp -> exp) l : Forall (fun e => crf (g e) = crf e) l -> forallb crf (map g l) = forallb crf l.
+Proof. induction 1 as [|x r Hx Hr IH]; [reflexivity|]. cbn [map forallb]. rewrite Hx, IH. reflexivity. Qed.
+Lemma crf_guard u x : crf (guard0 u x) = crf x.
+Proof. unfold guard0. destruct u; try reflexivity. destruct (starts_neg (shape x)); reflexivity. Qed.
+Lemma crf_nexp : forall e c, crf (nexp c e) = crf e.
+Proof.
+  induction e using exp_ind'; intros c; cbn [nexp crf]; try reflexivity; rewrite ?IHe, ?IHe1, ?IHe2; try reflexivity.
+  - rewrite (crf_map (nexp Std) args); [reflexivity|]. eapply Forall_impl; [|exact H]. intros a Ha. apply Ha.
+  - rewrite (crf_map (nexp Std) args); [reflexivity|]. eapply Forall_impl; [|exact H]. intros a Ha. apply Ha.
+  - rewrite crf_guard. apply IHe.
+  - destruct (droppable c (shape e)); [apply IHe|]. cbn [crf]. apply IHe.
+  - apply crf_map. eapply Forall_impl; [|exact H]. intros a Ha. apply Ha.
+  - apply crf_map. eapply Forall_impl; [|exact H]. intros a Ha. apply Ha.
+Qed.
+Lemma crf_cexp m : forall e o, crf (cexp m o e) = crf e.
+Proof.
+  induction e using exp_ind'; intros o; cbn [cexp crf]; try reflexivity; rewrite ?IHe, ?IHe1, ?IHe2; try reflexivity.
+  - rewrite (crf_map (cexp m false) args); [reflexivity|]. eapply Forall_impl; [|exact H]. intros a Ha. apply Ha.
+  - rewrite (crf_map (cexp m false) args); [reflexivity|]. eapply Forall_impl; [|exact H]. intros a Ha. apply Ha.
+  - apply crf_map. eapply Forall_impl; [|exact H]. intros a Ha. apply Ha.
+  - apply crf_map. eapply Forall_impl; [|exact H]. intros a Ha. apply Ha.
+Qed.
+Theorem crf_norm0 c p : sall_b crf (norm0 c p) = sall_b crf p.
+Proof.
+  unfold norm0, cprog. rewrite (proj2 (sall_smap_eq crf (cexp (callp0 c) false) (fun e => crf_cexp (callp0 c) e false))).
+  apply (proj2 (sall_nblk_eq crf (fun c0 e => crf_nexp e c0) (fun e => eq_refl))).
+Qed.
 (* ---------- C10 on whole programs: the printed tokens pass the whitespace discipline ---------- *)
 Section Whitespace.
 Variable c : cfg0.
@@ -752,32 +974,46 @@ Proof.
   { destruct (CallForm.space_call (space0 c)); [rewrite (run_blanks 1)|rewrite (run_blanks 0)]; apply run_commas_false; exact H. }
   destruct (CallForm.space_call (space0 c)); cbn [app]; rewrite ?run_sp, run_kw, run_app, run_commas_false by exact H; reflexivity.
 Qed.
-Lemma inline_pexp : forall e d, inline (pexp d e).
+Lemma crf_Forall l : forallb crf l = true -> Forall (fun e => crf e = true) l.
+Proof. intros H. apply Forall_forall. intros x Hx. apply (proj1 (forallb_forall crf l) H x Hx). Qed.
+Lemma inline_pexp : forall e, crf e = true -> forall d, inline (pexp d e).
 Proof.
-  induction e using exp_ind'; intros d b0; cbn [Fmt0.pexp]; try reflexivity.
-  - rewrite run_app, IHe. reflexivity.
-  - rewrite run_app, IHe1, run_kw, run_app, IHe2. reflexivity.
-  - rewrite run_app, IHe. apply run_pargs. apply Forall_map. eapply Forall_impl; [|exact H]. intros a0 Ha0. apply Ha0.
-  - rewrite run_app, IHe, run_kw. rewrite run_plain by reflexivity. apply run_pargs. apply Forall_map. eapply Forall_impl; [|exact H]. intros a0 Ha0. apply Ha0.
-  - rewrite run_app. destruct u; cbn [uop_toks]; try (rewrite run_kw; cbn [run]; apply IHe).
-  - rewrite run_app, IHe1, run_sp, run_kw, run_sp. apply IHe2.
-  - rewrite run_kw, run_app, IHe. reflexivity.
+  induction e using exp_ind'; intros C d b0; cbn [crf] in C; cbn [Fmt0.pexp]; try reflexivity.
+  - rewrite run_app, IHe by exact C. reflexivity.
+  - apply andb_true_iff in C. destruct C as [C1 C2]. rewrite run_app, IHe1, run_kw, run_app, IHe2 by assumption. reflexivity.
+  - apply andb_true_iff in C. destruct C as [C1 C2]. rewrite run_app, IHe by exact C1. apply run_pargs. apply Forall_map. apply crf_Forall in C2.
+    rewrite Forall_forall in *. intros a Ha. apply H; [exact Ha|apply C2; exact Ha].
+  - apply andb_true_iff in C. destruct C as [C1 C2]. rewrite run_app, IHe, run_kw by exact C1. rewrite run_plain by reflexivity. apply run_pargs. apply Forall_map. apply crf_Forall in C2.
+    rewrite Forall_forall in *. intros a Ha. apply H; [exact Ha|apply C2; exact Ha].
+  - rewrite run_app. destruct u; cbn [uop_toks]; try (rewrite run_kw; cbn [run]; apply IHe; exact C).
+  - apply andb_true_iff in C. destruct C as [C1 C2]. rewrite run_app, IHe1, run_sp, run_kw, run_sp by exact C1. apply IHe2. exact C2.
+  - rewrite run_kw, run_app, IHe by exact C. reflexivity.
   - destruct fs as [|f fs]; [reflexivity|]. rewrite run_kw, run_sp, run_app.
-    rewrite (inline_commas_ne (map (pexp d) (f :: fs))); [rewrite run_sp; reflexivity|discriminate|]. apply Forall_map. eapply Forall_impl; [|exact H]. intros a0 Ha0. apply Ha0.
-  - apply IHe.
-  - rewrite run_plain by reflexivity. rewrite run_sp, run_kw, run_sp. apply IHe.
-  - rewrite run_kw, run_app, IHe1, run_kw, run_sp, run_kw, run_sp. apply IHe2.
-  - (* a table over several lines: every line starts with the indentation of its level and ends behind a comma *)
-    destruct fs as [|f fs]; [reflexivity|]. rewrite run_kw, run_eol, run_app.
-    assert (E : run true (List.concat (map (fun f0 => indent c (S d) ++ pexp (S d) f0 ++ [kw ","; eol c]) (f :: fs))) = Some true).
-    { induction H as [|x r Hx Hr IH]; [reflexivity|]. cbn [map List.concat]. rewrite run_app.
-      assert (L : run true (indent c (S d) ++ pexp (S d) x ++ [kw ","; eol c]) = Some true).
-      { rewrite run_indent, run_app, Hx, run_kw, run_eol. reflexivity. }
-      rewrite L. exact IH. }
+    rewrite (inline_commas_ne (map (pexp d) (f :: fs))); [rewrite run_sp; reflexivity|discriminate|]. apply Forall_map. apply crf_Forall in C.
+    rewrite Forall_forall in *. intros a Ha. apply H; [exact Ha|apply C; exact Ha].
+  - apply IHe. exact C.
+  - rewrite run_plain by reflexivity. rewrite run_sp, run_kw, run_sp. apply IHe. exact C.
+  - apply andb_true_iff in C. destruct C as [C1 C2]. rewrite run_kw, run_app, IHe1, run_kw, run_sp, run_kw, run_sp by exact C1. apply IHe2. exact C2.
+  - (* a table over several lines: every line starts with the indentation of its level and ends with a line break *)
+    destruct fs as [|f fs]; [reflexivity|].
+    change (run b0 (kw "{" :: eol c :: tlines c d (f :: fs) ++ indent c d ++ [kw "}"]) = Some false).
+    rewrite run_kw, run_eol, run_app.
+    assert (E : run true (tlines c d (f :: fs)) = Some true).
+    { unfold tlines. apply crf_Forall in C. induction H as [|x r Hx Hr IH]; [reflexivity|]. inversion C as [|? ? Cx Cr]; subst. cbn [map List.concat]. rewrite run_app.
+      assert (B : forall (bl : bool) k, run true ((if bl then [eol c] else []) ++ k) = run true k) by (intros bl k; destruct bl; [cbn [app]; apply run_eol|reflexivity]).
+      assert (L : run true (tline c d x) = Some true).
+      { destruct x; try (cbn [tline]; rewrite run_indent, run_app, Hx, run_kw, run_eol by exact Cx; reflexivity).
+        - (* a field line *) pose proof Cx as Cx0. cbn [crf] in Cx. apply andb_true_iff in Cx. destruct Cx as [Cf Ct]. cbn [tline]. rewrite B, run_indent, run_app.
+          pose proof (Hx Cx0 (S d)) as Hf. cbn [Fmt0.pexp] in Hf. rewrite Hf, run_kw. destruct t as [t1|]; cbn [app].
+          + apply negb_true_iff in Ct. rewrite run_sp, (run_com t1 _ _ Ct), run_eol. reflexivity.
+          + rewrite run_eol. reflexivity.
+        - (* a comment line *) cbn [crf] in Cx. apply negb_true_iff in Cx. cbn [tline]. rewrite B, run_indent. cbn [app]. rewrite (run_com x _ _ Cx), run_eol. reflexivity. }
+      rewrite L. apply IH. exact Cr. }
     rewrite E, run_indent. reflexivity.
+  - (* a field line outside a table prints as its field *) apply andb_true_iff in C. destruct C as [C1 _]. apply IHe. exact C1.
 Qed.
-Lemma inline_pexps_false d es : run false (pexps d es) = Some false.
-Proof. apply run_commas_false. apply Forall_map. apply Forall_forall. intros x _. apply inline_pexp. Qed.
+Lemma inline_pexps_false d es : forallb crf es = true -> run false (pexps d es) = Some false.
+Proof. intros C. apply run_commas_false. apply Forall_map. apply crf_Forall in C. eapply Forall_impl; [|exact C]. intros x Cx. apply inline_pexp. exact Cx. Qed.
 Lemma inline_pnames_false ns : run false (pnames ns) = Some false.
 Proof. apply run_commas_false. apply Forall_map. apply Forall_forall. intros x _ b. reflexivity. Qed.
 Lemma run_dotted p : run false (dotted p) = Some false.
@@ -812,104 +1048,105 @@ Proof.
   rewrite <- !app_assoc. assert (E : forall k, run true ((if b then [eol c] else []) ++ k) = run true k) by (intros k; destruct b; [cbn [app]; apply run_eol|reflexivity]).
   rewrite E, run_indent. cbn [app]. cbn [snd] in Hx. rewrite (run_com x _ _ Hx), run_eol. exact IH.
 Qed.
-Definition Pw (s : stmt) : Prop := wf_stmt s -> forall d b, run b (pstmt c d s) = Some false.
-Definition Qw (r : els) : Prop := wf_els r -> forall d, run true (pels c d r) = Some true.
-Definition Iw (i : item) : Prop := wf_item i -> forall d, run true (pitem c d i) = Some true.
-Definition Bw (b : blk) : Prop := wf_blk b -> forall d, run true (pblk c d b) = Some true.
-Lemma run_block_end b d : Bw b -> wf_blk b -> run true (pblk c (S d) b ++ indent c d ++ [kw "end"]) = Some false.
-Proof. intros H W. rewrite run_app, H by exact W. rewrite run_indent. reflexivity. Qed.
+Definition Pw (s : stmt) : Prop := wf_stmt s -> sall_s crf s = true -> forall d b, run b (pstmt c d s) = Some false.
+Definition Qw (r : els) : Prop := wf_els r -> sall_r crf r = true -> forall d, run true (pels c d r) = Some true.
+Definition Iw (i : item) : Prop := wf_item i -> sall_i crf i = true -> forall d, run true (pitem c d i) = Some true.
+Definition Bw (b : blk) : Prop := wf_blk b -> sall_b crf b = true -> forall d, run true (pblk c d b) = Some true.
+Ltac crs := repeat match goal with C : _ && _ = true |- _ => apply andb_true_iff in C; destruct C end.
+Lemma run_block_end b d : Bw b -> wf_blk b -> sall_b crf b = true -> run true (pblk c (S d) b ++ indent c d ++ [kw "end"]) = Some false.
+Proof. intros H W C. rewrite run_app, H by assumption. rewrite run_indent. reflexivity. Qed.
 (* the statement of a collapsed block *)
-Lemma run_psimple d s b0 : wf_stmt s -> run b0 (psimple c d s) = Some false \/ psimple c d s = [].
+Lemma run_psimple d s b0 : wf_stmt s -> sall_s crf s = true -> run b0 (psimple c d s) = Some false \/ psimple c d s = [].
 Proof.
-  intros W. destruct s; try (right; reflexivity); left; cbn [psimple].
+  intros W C. destruct s; try (right; reflexivity); left; cbn [psimple]; cbn [sall_s] in C; unfold pall in C; crs.
   - destruct es as [|e es']; rewrite run_kw, run_sp; [apply inline_pnames_false|].
-    rewrite run_app, inline_pnames_false, run_sp, run_kw, run_sp. apply inline_pexps_false.
+    rewrite run_app, inline_pnames_false, run_sp, run_kw, run_sp. apply inline_pexps_false. exact C.
   - rewrite run_app. cbn [wf_stmt] in W.
-    rewrite (inline_commas_ne (map (pexp d) vs)); [|destruct vs; [contradiction|discriminate]|apply Forall_map; apply Forall_forall; intros x _; apply inline_pexp].
-    rewrite run_sp, run_kw, run_sp. apply inline_pexps_false.
-  - apply inline_pexp.
-  - destruct es as [|e es']; [reflexivity|]. rewrite run_kw, run_sp. apply inline_pexps_false.
+    rewrite (inline_commas_ne (map (pexp d) vs)); [|destruct vs; [contradiction|discriminate]|apply Forall_map; eapply Forall_impl; [|apply crf_Forall; eassumption]; intros x Cx; apply inline_pexp; exact Cx].
+    rewrite run_sp, run_kw, run_sp. apply inline_pexps_false. assumption.
+  - apply inline_pexp. exact C.
+  - destruct es as [|e es']; [reflexivity|]. rewrite run_kw, run_sp. apply inline_pexps_false. exact C.
   - reflexivity.
 Qed.
-Lemma simple_blk_wf b s1 : simple_blk b = Some s1 -> wf_blk b -> wf_stmt s1.
+Lemma simple_blk_wf b s1 : simple_blk b = Some s1 -> wf_blk b -> sall_b crf b = true -> wf_stmt s1 /\ sall_s crf s1 = true.
 Proof.
   destruct b as [is tl]. destruct is as [|[l bl s t] [|i2 r]]; try discriminate; cbn [simple_blk].
   - destruct l; [|discriminate]. destruct t; [discriminate|]. destruct tl; [|discriminate]. destruct (simple_stmt s); [|discriminate].
-    intros E W. injection E as <-. rewrite wf_blk_eq in W. destruct W as [[(_ & W & _) _] _]. exact W.
+    intros E W C. injection E as <-. rewrite wf_blk_eq in W. destruct W as [[(_ & W & _) _] _]. cbn [sall_b forallb sall_i] in C. rewrite andb_true_r in C. split; assumption.
   - destruct l; [|discriminate]. destruct t; discriminate.
 Qed.
-Lemma run_collapsed d s1 r : wf_stmt s1 -> run false (sp :: psimple c d s1 ++ sp :: kw "end" :: r) = run false r.
+Lemma run_collapsed d s1 r : wf_stmt s1 -> sall_s crf s1 = true -> run false (sp :: psimple c d s1 ++ sp :: kw "end" :: r) = run false r.
 Proof.
-  intros W. rewrite run_sp. destruct (run_psimple d s1 false W) as [E|E].
+  intros W C. rewrite run_sp. destruct (run_psimple d s1 false W C) as [E|E].
   - rewrite run_app, E, run_sp, run_kw. reflexivity.
   - rewrite E. cbn [app]. rewrite run_sp, run_kw. reflexivity.
 Qed.
-Lemma run_fbody b d : Bw b -> wf_blk b -> run false (fbody c d b) = Some false.
+Lemma run_fbody b d : Bw b -> wf_blk b -> sall_b crf b = true -> run false (fbody c d b) = Some false.
 Proof.
-  intros H W. unfold fbody. destruct (blk_empty b); [rewrite run_sp; reflexivity|].
-  destruct (fun_guard c b) as [s1|] eqn:G.
-  - destruct (oneline (psimple c d s1)).
-    + unfold fun_guard in G. destruct (collapse_fun (collapse0 c)); [|discriminate]. apply (run_collapsed d s1 []). apply (simple_blk_wf b s1 G W).
-    + rewrite run_eol. apply run_block_end; assumption.
-  - rewrite run_eol. apply run_block_end; assumption.
+  intros H W C. unfold fbody. destruct (blk_empty b); [rewrite run_sp; reflexivity|].
+  assert (N : run false (eol c :: pblk c (S d) b ++ indent c d ++ [kw "end"]) = Some false) by (rewrite run_eol; apply run_block_end; assumption).
+  destruct (fun_guard c b) as [s1|] eqn:G; [|exact N]. destruct (oneline (psimple c d s1) && nocom (psimple c d s1)); [|exact N].
+  unfold fun_guard in G. destruct (collapse_fun (collapse0 c)); [|discriminate]. destruct (simple_blk_wf b s1 G W C) as [W1 C1]. apply (run_collapsed d s1 []); assumption.
 Qed.
 Opaque pblk.
 Lemma discipline_all : (forall s, Pw s) /\ (forall b, Bw b).
 Proof.
-  assert (HB : forall is, Forall Iw is -> wf_items is -> forall d, run true (List.concat (map (pitem c d) is)) = Some true).
-  { induction 1 as [|i r Hi Hr IH]; intros W d; [reflexivity|]. destruct W as [W1 W2]. cbn [map List.concat]. rewrite run_app, Hi by exact W1. apply IH. exact W2. }
+  assert (HB : forall is, Forall Iw is -> wf_items is -> forallb (sall_i crf) is = true -> forall d, run true (List.concat (map (pitem c d) is)) = Some true).
+  { induction 1 as [|i r Hi Hr IH]; intros W C d; [reflexivity|]. destruct W as [W1 W2]. cbn [forallb] in C. apply andb_true_iff in C. destruct C as [C1 C2].
+    cbn [map List.concat]. rewrite run_app, Hi by assumption. apply IH; assumption. }
+  assert (Hitem : forall l bl s t, Pw s -> Iw (Item l bl s t)).
+  { intros l bl s t H (W1 & W2 & W3) C d. cbn [sall_i] in C. rewrite p_item, run_app, run_ptrivia by exact W1.
+    assert (E : forall k, run true ((if bl then [eol c] else []) ++ k) = run true k) by (intros k; destruct bl; [cbn [app]; apply run_eol|reflexivity]).
+    rewrite E, run_indent, run_app, (H W2 C). destruct t as [x|]; cbn [ptrail app].
+    - rewrite run_sp, (run_com x _ _ W3), run_eol. reflexivity.
+    - rewrite run_eol. reflexivity. }
   assert (H : forall s, Pw s); [|split; [exact H|]].
-  - apply (stmt_ind' Pw Qw Iw Bw); unfold Pw, Qw, Iw, Bw; intros.
+  - apply (stmt_ind' Pw Qw Iw Bw); unfold Pw, Qw, Bw; intros; try (apply Hitem; assumption);
+      repeat match goal with C : sall_s crf _ = true |- _ => cbn [sall_s] in C | C : sall_r crf _ = true |- _ => cbn [sall_r] in C end; unfold pall in *; crs.
     + (* SLocal *) destruct es as [|e es']; cbn [pstmt psimple]; rewrite run_kw, run_sp.
       * apply inline_pnames_false.
-      * rewrite run_app, inline_pnames_false, run_sp, run_kw, run_sp. apply inline_pexps_false.
+      * rewrite run_app, inline_pnames_false, run_sp, run_kw, run_sp. apply inline_pexps_false. assumption.
     + (* SAssign *) cbn [pstmt psimple]. rewrite run_app. cbn [wf_stmt] in H.
-      rewrite (inline_commas_ne (map (pexp d) vs)); [|destruct vs; [contradiction|discriminate]|apply Forall_map; apply Forall_forall; intros x _; apply inline_pexp].
-      rewrite run_sp, run_kw, run_sp. apply inline_pexps_false.
-    + (* SCall *) cbn [pstmt psimple]. apply inline_pexp.
+      rewrite (inline_commas_ne (map (pexp d) vs)); [|destruct vs; [contradiction|discriminate]|apply Forall_map; eapply Forall_impl; [|apply crf_Forall; eassumption]; intros x Cx; apply inline_pexp; exact Cx].
+      rewrite run_sp, run_kw, run_sp. apply inline_pexps_false. assumption.
+    + (* SCall *) cbn [pstmt psimple]. apply inline_pexp. assumption.
     + (* SDo *) rewrite p_do, run_kw, run_eol. apply run_block_end; assumption.
-    + (* SWhile *) rewrite p_while, run_kw, run_sp, run_app, inline_pexp, run_sp, run_kw, run_eol. apply run_block_end; assumption.
-    + (* SRepeat *) rewrite p_repeat, run_kw, run_eol, run_app, H by exact H0. rewrite run_indent. rewrite run_kw, run_sp. apply inline_pexp.
-    + (* SIf *) destruct H1 as [W1 W2]. rewrite p_if. destruct (if_guard c t r) as [s1|] eqn:G.
-      * unfold if_guard in G. destruct (collapse_if (collapse0 c)); [|discriminate]. destruct r; try discriminate.
-        rewrite run_kw, run_sp, run_app, inline_pexp, run_sp, run_kw. apply (run_collapsed d s1 []). apply (simple_blk_wf t s1 G W1).
-      * rewrite run_kw, run_sp, run_app, inline_pexp, run_sp, run_kw, run_eol.
-        rewrite run_app, H by exact W1. rewrite run_app, H0 by exact W2. rewrite run_indent. reflexivity.
-    + (* SNumFor *) rewrite p_numfor, run_kw, run_sp. rewrite run_plain by reflexivity. rewrite run_sp, run_kw, run_sp, run_app, inline_pexp, run_kw, run_sp, run_app, inline_pexp.
+    + (* SWhile *) rewrite p_while, run_kw, run_sp, run_app, inline_pexp, run_sp, run_kw, run_eol by assumption. apply run_block_end; assumption.
+    + (* SRepeat *) rewrite p_repeat, run_kw, run_eol, run_app, H by assumption. rewrite run_indent. rewrite run_kw, run_sp. apply inline_pexp. assumption.
+    + (* SIf *) match goal with W : wf_stmt (SIf _ _ _) |- _ => destruct W as [W1 W2] end. rewrite p_if.
+      assert (N : run b (kw "if" :: sp :: pexp d e ++ sp :: kw "then" :: eol c :: pblk c (S d) t ++ pels c d r ++ indent c d ++ [kw "end"]) = Some false).
+      { rewrite run_kw, run_sp, run_app, inline_pexp, run_sp, run_kw, run_eol by assumption.
+        rewrite run_app, H by assumption. rewrite run_app, H0 by assumption. rewrite run_indent. reflexivity. }
+      destruct (if_guard c t r) as [s1|] eqn:G; [|exact N]. destruct (nocom (psimple c d s1)); [|exact N].
+      unfold if_guard in G. destruct (collapse_if (collapse0 c)); [|discriminate]. destruct r; try discriminate.
+      destruct (simple_blk_wf t s1 G W1) as [Ws Cs]; [assumption|].
+      rewrite run_kw, run_sp, run_app, inline_pexp, run_sp, run_kw by assumption. apply (run_collapsed d s1 []); assumption.
+    + (* SNumFor *) rewrite p_numfor, run_kw, run_sp. rewrite run_plain by reflexivity. rewrite run_sp, run_kw, run_sp, run_app, inline_pexp, run_kw, run_sp, run_app, inline_pexp by assumption.
       rewrite run_app. assert (E : run false (match st with Some x => kw "," :: sp :: pexp d x | None => [] end) = Some false).
-      { destruct st; [rewrite run_kw, run_sp; apply inline_pexp|reflexivity]. }
+      { destruct st; [rewrite run_kw, run_sp; apply inline_pexp; assumption|reflexivity]. }
       rewrite E, run_sp, run_kw, run_eol. apply run_block_end; assumption.
-    + (* SGenFor *) rewrite p_genfor, run_kw, run_sp, run_app, inline_pnames_false, run_sp, run_kw, run_sp, run_app, inline_pexps_false, run_sp, run_kw, run_eol.
+    + (* SGenFor *) rewrite p_genfor, run_kw, run_sp, run_app, inline_pnames_false, run_sp, run_kw, run_sp, run_app, inline_pexps_false, run_sp, run_kw, run_eol by assumption.
       apply run_block_end; assumption.
     + (* SFunction *) rewrite p_function, run_kw, run_sp, run_app, run_dotted, run_app.
       assert (E : run false (match m with Some n => [kw ":"; TIdent n] | None => [] end) = Some false) by (destruct m; reflexivity).
       rewrite E, run_pparams. apply run_fbody; assumption.
     + (* SLocalFunction *) rewrite p_localfunction, run_kw, run_sp, run_kw, run_sp. rewrite run_plain by reflexivity. rewrite run_pparams.
       apply run_fbody; assumption.
-    + (* SReturn *) destruct es as [|e es']; cbn [pstmt psimple]; [reflexivity|]. rewrite run_kw, run_sp. apply inline_pexps_false.
+    + (* SReturn *) destruct es as [|e es']; cbn [pstmt psimple]; [reflexivity|]. rewrite run_kw, run_sp. apply inline_pexps_false. assumption.
     + (* SBreak *) reflexivity.
     + (* NoElse *) reflexivity.
-    + (* Else *) rewrite p_else, run_indent, run_kw, run_eol. apply H. exact H0.
-    + (* ElseIf *) destruct H1 as [W1 W2]. rewrite p_elseif, run_indent, run_kw, run_sp, run_app, inline_pexp, run_sp, run_kw, run_eol.
-      rewrite run_app, H by exact W1. apply H0. exact W2.
-    + (* Item *) destruct H0 as (W1 & W2 & W3). rewrite p_item, run_app, run_ptrivia by exact W1.
-      assert (E : forall k, run true ((if b then [eol c] else []) ++ k) = run true k) by (intros k; destruct b; [cbn [app]; apply run_eol|reflexivity]).
-      rewrite E, run_indent, run_app, H by exact W2. destruct t as [x|]; cbn [ptrail app].
-      * rewrite run_sp, (run_com x _ _ W3), run_eol. reflexivity.
-      * rewrite run_eol. reflexivity.
-    + (* Blk *) rewrite wf_blk_eq in H0. destruct H0 as [W1 W2]. rewrite p_blk, run_app, (HB is H W1). apply run_ptrivia. exact W2.
-  - intros b. destruct b as [is tl]. unfold Bw. intros W d. rewrite wf_blk_eq in W. destruct W as [W1 W2].
-    rewrite p_blk, run_app, (HB is); [apply run_ptrivia; exact W2| |exact W1].
-    apply Forall_forall. intros i _. destruct i as [l bl s t]. unfold Iw. intros (V1 & V2 & V3) d0.
-    rewrite p_item, run_app, run_ptrivia by exact V1.
-    assert (E : forall k, run true ((if bl then [eol c] else []) ++ k) = run true k) by (intros k; destruct bl; [cbn [app]; apply run_eol|reflexivity]).
-    rewrite E, run_indent, run_app, (H s V2). destruct t as [x|]; cbn [ptrail app].
-    + rewrite run_sp, (run_com x _ _ V3), run_eol. reflexivity.
-    + rewrite run_eol. reflexivity.
+    + (* Else *) rewrite p_else, run_indent, run_kw, run_eol. apply H; assumption.
+    + (* ElseIf *) match goal with W : wf_els (ElseIf _ _ _) |- _ => destruct W as [W1 W2] end. rewrite p_elseif, run_indent, run_kw, run_sp, run_app, inline_pexp, run_sp, run_kw, run_eol by assumption.
+      rewrite run_app, H by assumption. apply H0; assumption.
+    + (* Blk *) match goal with W : wf_blk (Blk _ _) |- _ => rewrite wf_blk_eq in W; destruct W as [W1 W2] end.
+      match goal with C : sall_b crf (Blk _ _) = true |- _ => cbn [sall_b] in C end. rewrite p_blk, run_app, (HB is H W1) by assumption. apply run_ptrivia. exact W2.
+  - intros b. destruct b as [is tl]. unfold Bw. intros W C d. rewrite wf_blk_eq in W. destruct W as [W1 W2]. cbn [sall_b] in C.
+    rewrite p_blk, run_app, (HB is); [apply run_ptrivia; exact W2| |exact W1|exact C].
+    apply Forall_forall. intros i _. destruct i as [l bl s t]. apply Hitem. apply H.
 Qed.
 Transparent pblk.
-Theorem format0_whitespace_discipline p eof : wf_blk p -> ws_scan (wcfg eof) true false (pprog c p) = None.
-Proof. intros W. apply (run_sound eof _ true true). unfold pprog. apply (proj2 discipline_all). exact W. Qed.
+Theorem format0_whitespace_discipline p eof : wf_blk p -> sall_b crf p = true -> ws_scan (wcfg eof) true false (pprog c p) = None.
+Proof. intros W C. apply (run_sound eof _ true true). unfold pprog. apply (proj2 discipline_all); assumption. Qed.
 End Whitespace.
 
 (* ---------- C10 on what format0 prints: both passes keep the (weak) well-formedness the discipline theorem asks for ---------- *)
@@ -946,8 +1183,10 @@ Proof.
     split; [|exact B]. apply HI; [|exact A]. apply Forall_forall. intros [l bl s t] _ (X & Y & Z). split; [exact X|]. split; [apply H; exact Y|exact Z].
 Qed.
 End WfSMap.
-Theorem format0_output_obeys_the_discipline c p eof : wf_blk p -> ws_scan (wcfg c eof) true false (pprog c (norm0 c p)) = None.
-Proof. intros W. apply format0_whitespace_discipline. unfold norm0, cprog. apply (proj2 (wf_smap _)). apply (proj2 wf_nblk). exact W. Qed.
+Theorem format0_output_obeys_the_discipline c p eof : wf_blk p -> sall_b crf p = true -> ws_scan (wcfg c eof) true false (pprog c (norm0 c p)) = None.
+Proof.
+  intros W C. apply format0_whitespace_discipline; [|rewrite crf_norm0; exact C]. unfold norm0, cprog. apply (proj2 (wf_smap _)). apply (proj2 wf_nblk). exact W.
+Qed.
 
 (* ---------- C06: normalisation is not idempotent on all of L0 ---------- *)
 (* `local x = (- -f())`: the first pass keeps the outer parentheses (the rule looks through the unary operators and finds
@@ -986,7 +1225,7 @@ Fixpoint calls_ok (m : CallForm.cmode) (o : bool) (e : exp) : bool :=
   | EIndex p k => calls_ok m true p && calls_ok m false k
   | ECall f sg args => CallForm.form_ok m (out_form sg args) (akind_args args) o && calls_ok m false f && all args
   | EMethod ob _ sg args => CallForm.form_ok m (out_form sg args) (akind_args args) o && calls_ok m true ob && all args
-  | EUn _ x | EParen x | FPos x | FNamed _ x => calls_ok m false x
+  | EUn _ x | EParen x | FPos x | FNamed _ x | FLine _ x _ => calls_ok m false x
   | EBin _ l r | FKey l r => calls_ok m false l && calls_ok m false r
   | ETable fs | ETableML fs => all fs
   | _ => true
@@ -1021,44 +1260,12 @@ Proof.
   - destruct fs as [|f fs]; [reflexivity|]. cbn [map]. rewrite !(p_tableml c). f_equal. f_equal. f_equal.
     change (cexp CallForm.Input false f :: map (cexp CallForm.Input false) fs) with (map (cexp CallForm.Input false) (f :: fs)).
     unfold tlines. rewrite map_map. f_equal.
-    clear -H. induction H as [|x r Hx Hr IH]; [reflexivity|]. cbn [map]. rewrite Hx, IH. reflexivity.
+    clear -H. induction H as [|x r Hx Hr IH]; [reflexivity|]. cbn [map]. rewrite IH. f_equal.
+    destruct (isline x) eqn:L.
+    + destruct x; try discriminate; [|reflexivity]. pose proof (Hx false (S d)) as Hf. cbn [cexp pexp] in Hf. cbn [cexp tline]. rewrite Hf. reflexivity.
+    + assert (L' : isline (cexp CallForm.Input false x) = false) by (destruct x; try discriminate; reflexivity).
+      rewrite (tline_plain c d x L), (tline_plain c d _ L'), Hx. reflexivity.
 Qed.
-(* the rule on whole programs: a predicate on every expression of a program, with "nothing follows" at the roots *)
-Section SAll.
-Variable P : exp -> bool.
-Definition pall (l : list exp) : bool := forallb P l.
-Fixpoint sall_s (s : stmt) : bool :=
-  match s with
-  | SLocal _ es | SReturn es => pall es
-  | SAssign vs es => pall vs && pall es
-  | SCall e => P e
-  | SDo b => sall_b b
-  | SWhile e b | SRepeat b e => P e && sall_b b
-  | SIf e t r => P e && sall_b t && sall_r r
-  | SNumFor _ a b st body => P a && P b && match st with Some x => P x | None => true end && sall_b body
-  | SGenFor _ es body => pall es && sall_b body
-  | SFunction _ _ _ _ body | SLocalFunction _ _ _ body => sall_b body
-  | SBreak => true
-  end
-with sall_r (r : els) : bool := match r with NoElse => true | Else b => sall_b b | ElseIf e t r2 => P e && sall_b t && sall_r r2 end
-with sall_i (i : item) : bool := match i with Item _ _ s _ => sall_s s end
-with sall_b (b : blk) : bool := match b with Blk is _ => forallb sall_i is end.
-Variable fe : exp -> exp.
-Hypothesis Hfe : forall e, P (fe e) = true.
-Lemma pall_map es : pall (map fe es) = true.
-Proof. unfold pall. apply forallb_forall. intros x Hx. apply in_map_iff in Hx. destruct Hx as (y & <- & _). apply Hfe. Qed.
-Theorem sall_smap : (forall s, sall_s (smap_s fe s) = true) /\ (forall b, sall_b (smap_b fe b) = true).
-Proof.
-  assert (HI : forall is, Forall (fun i => sall_i (smap_i fe i) = true) is -> forallb sall_i (map (smap_i fe) is) = true).
-  { induction 1 as [|i r Hi Hr IH]; [reflexivity|]. cbn [map forallb]. rewrite Hi, IH. reflexivity. }
-  assert (H : forall s, sall_s (smap_s fe s) = true).
-  - apply (stmt_ind' (fun s => sall_s (smap_s fe s) = true) (fun r => sall_r (smap_r fe r) = true) (fun i => sall_i (smap_i fe i) = true) (fun b => sall_b (smap_b fe b) = true));
-      intros; try (cbn [smap_b sall_b]; apply HI; assumption); cbn [smap_s smap_r smap_i sall_s sall_r sall_i]; rewrite ?pall_map, ?Hfe;
-      try (match goal with |- context [option_map fe ?st] => destruct st; cbn [option_map]; rewrite ?Hfe end);
-      repeat (apply andb_true_iff; split); try reflexivity; try assumption; try apply Hfe; try apply pall_map.
-  - split; [exact H|]. intros [is tl]. cbn [smap_b sall_b]. apply HI. apply Forall_forall. intros [l bl s t] _. cbn [smap_i sall_i]. apply H.
-Qed.
-End SAll.
 Theorem format0_calls_obey_the_option c p : sall_b (calls_ok (callp0 c) false) (norm0 c p) = true.
 Proof. unfold norm0, cprog. apply (proj2 (sall_smap (calls_ok (callp0 c) false) (cexp (callp0 c) false) (fun e => cexp_calls_ok (callp0 c) e false))). Qed.
 (* non-vacuity: a tree that breaks the rule is rejected *)
